@@ -448,3 +448,11 @@ func (h *Harness) Main() {
 		os.Exit(2)
 	}
 }
+
+// Pick2 returns one of two strings.
+func (r *Rng) Pick2(a, b string) string {
+	if r.Bool() {
+		return a
+	}
+	return b
+}
